@@ -58,7 +58,7 @@ fn counted_subjects() -> Vec<&'static Subject> {
 
 const PAYLOADS: [usize; 6] = [0, 1, 100, 4096, 16385, 65536];
 const SOURCES: usize = 4;
-const NS: [u64; 9] = [1 << 10, 1 << 16, 1 << 20, 1 << 22, 1 << 24, (1 << 30) - 1, 1 << 30, 1 << 31, u32::MAX as u64];
+const NS: [u64; 12] = [1 << 10, 1 << 13, 1 << 14, (1 << 14) + 1, 1 << 16, 1 << 20, 1 << 22, 1 << 24, (1 << 30) - 1, 1 << 30, 1 << 31, u32::MAX as u64];
 
 fn source_of(i: usize) -> SourceSpec {
     match i % SOURCES {
@@ -204,6 +204,8 @@ impl Scenario for Alloc {
                 ns.extend_from_slice(&NS);
             }
             let mut big_peaks: Vec<(u64, isize)> = Vec::new();
+            // (claimed count, peak) of claims the supplied input cannot back
+            let mut unbacked: Vec<(u64, isize)> = Vec::new();
             for n in ns {
                 let bytes = tampered(&enc, a, n, payload);
                 let out = (s.decode)(&bytes, &src, Mode::Decode);
@@ -222,6 +224,13 @@ impl Scenario for Alloc {
                 }
                 if n >= (1 << 20) && !empty_elems {
                     big_peaks.push((n, out.window.peak));
+                }
+                if !empty_elems {
+                    let remaining = (bytes.len() - a.off) as u64;
+                    let need = if a.kind == AK::BitsLen { n / 8 } else { n.saturating_mul(a.aux.max(1)) };
+                    if need > remaining {
+                        unbacked.push((n, out.window.peak));
+                    }
                 }
                 if out.res.is_ok() {
                     st.probe("tampered_count_accepted");
@@ -249,6 +258,19 @@ impl Scenario for Alloc {
                     }
                 }
                 st.probe("claim_independence_checked");
+            }
+            // A claim the input cannot back must not cost more than the largest claims do: below
+            // the chunk capacity the preallocation may be smaller, never larger.
+            if let Some(s_big) = big_peaks.iter().map(|x| x.1).max() {
+                for (n, p) in &unbacked {
+                    if *p > s_big + 4096 {
+                        return viol(
+                            "c09.claim_dependent",
+                            format!("{}: count prefix #{} via {} with {} payload bytes: an unbacked claim of N={} makes the decoder request a peak of {} bytes, more than the {} bytes of the largest claims: memory follows the claimed count", s.name, pi, src.describe(), payload, n, p, s_big),
+                        );
+                    }
+                }
+                st.probe("unbacked_small_claims_checked");
             }
         }
         st.sample(|| json!({"subject": s.name, "value": short(v), "encoding": hex_short(&enc), "count_positions": positions.len(), "payload": payload, "source": src.describe()}));
